@@ -3,6 +3,7 @@
    accepted(impl, K) == accepted(reference, K)   and equal trees on every accepted sequence."""
 import itertools, time, traceback
 import z3
+from . import front
 
 from .harness import *
 from .tlayer import tok_key, fn_key, normalise_native_token
@@ -143,7 +144,13 @@ class ParserOb(Obligation):
 
     def run(self, ctx):
         ev = self.ev; K = self.K
-        prog = ctx.prog(self.oc, self.features)
+        try:
+            prog = ctx.prog(self.oc, self.features)
+        except front.BuildError:
+            if not self.features: raise
+            # this feature subset does not build: reported once by the feature obligation of C17
+            return dict(name=self.name, paths=0, obligations=0, discharged=0, confirmed=[], inconclusive=[], replayed=0, replay_mismatch=[], samples=[], skipped='feature subset does not build',
+                        queries={}, solver_s=0, transitions=0, fns=[], summaries=[])
         nk = prog.enum_key('number::Number') or prog.enum_key('Number')
         if nk: sem.set_number_variants(prog.enums[nk])
         tk = prog.enum_key(tok_key(ev)); fk = prog.enum_key(fn_key(ev))
